@@ -94,6 +94,17 @@ PROPS = {
              "run()'s datapoints dict).",
         note="External library calls are assumed not to mutate or share their arguments (list in the evidence); pandas methods without "
              "inplace=True return new objects; deepcopy cuts aliasing."),
+
+    "C12": dict(
+        claimed=True, design="§3 C12",
+        technique="AST-node x visitor-method matrix (E7) for the dependency analysis, class-filter agreement, attribute-read parity, CFG must-pass-through, per-statement state reset paths, interprocedural operand-mutation analysis (E2) over all Operators validation methods",
+        text="Decides the structural conditions of order independence: the dependency analysis descends into every operand-bearing field of "
+             "every AST node class; the statements it numbers are exactly those the sorter permutes; names defined with ':=' and '<-' are "
+             "resolved alike; redefinition and cycle errors are raised on every path whatever the order; analyser state is reset between "
+             "statements; and semantic validation never mutates its operands (which are the datasets stored for later statements). "
+             "Found and repaired: persistent scalars used inside clauses got no dependency edge.",
+        note="Does not decide that equal dependency graphs give equal run() results. Operand-mutation sites present on the reference "
+             "tree are a frozen, reasoned table (not triaged for genuine order dependence); new sites are violations."),
 }
 
 NA_REASONS = {
